@@ -32,6 +32,8 @@ type TSA struct {
 	AccuracyMillis int
 	// WrongImprint makes the token cover another message (a countersignature replayed from another envelope).
 	WrongImprint bool
+	// NoCerts issues tokens without the certificates field although they are requested
+	NoCerts bool
 	Serial       int64
 	Issued       int
 }
@@ -199,7 +201,7 @@ func (t *TSA) Token(imprint tspclient.MessageImprint, nonce *big.Int, certReq bo
 		Encap:            cmsEncap{ContentType: oidTSTInfo, Content: infoDER},
 		SignerInfos:      []cmsSignerInfo{si},
 	}
-	if certReq {
+	if certReq && !t.NoCerts {
 		certs := append(append([]byte{}, t.Leaf.Cert.Raw...), t.Root.Cert.Raw...)
 		sd.Certificates = asn1.RawValue{Class: asn1.ClassContextSpecific, Tag: 0, IsCompound: true, Bytes: certs}
 	}
